@@ -79,6 +79,32 @@ def snap(obj: Any, seen: Optional[Dict[int, int]] = None, depth: int = 0) -> Any
     return (type(obj).__name__, d)
 
 
+def scribble(obj: Any, depth: int) -> None:
+    """edit a payload in place wherever it can be edited"""
+    import dataclasses as _dc
+    if depth > 4:
+        return
+    if type(obj) is list:
+        for o in list(obj):
+            scribble(o, depth + 1)
+        obj.append("\x00scribble")
+    elif type(obj) is dict:
+        for o in list(obj.values()):
+            scribble(o, depth + 1)
+        obj["\x00scribble"] = 1
+    elif type(obj) is set:
+        obj.add("\x00scribble")
+    elif isinstance(obj, tuple):
+        for o in obj:
+            scribble(o, depth + 1)
+    elif _dc.is_dataclass(obj) and not isinstance(obj, type):
+        for f in _dc.fields(obj):
+            try:
+                scribble(getattr(obj, f.name), depth + 1)
+            except Exception:  # noqa
+                pass
+
+
 class Stepper:
     """a coroutine driven by hand: each `step()` resumes it up to its next await point"""
 
@@ -228,6 +254,34 @@ def check_case(case: dict, rng: random.Random, max_exhaustive: int) -> Tuple[Opt
             for t, r0 in zip(twins, first):
                 if canon_res(ctx, solo(fresh2, t)[0]) != r0:
                     fails.append(f"the result for {t!r} changed after equal values of another type had been validated")
+                    break
+    except Exception:  # noqa
+        pass
+    # ---- (a3) what a call returns is the caller's to keep: editing a returned payload in place (appending to its
+    # lists, adding to its dicts and sets, at any depth) changes neither the validator nor what it returns next for an
+    # equal input.  (Skipped when a NamedTuple class has a mutable default: Python itself shares that object between
+    # all instances built without the field.)  real code only
+    try:
+        shared_by_python = any(c.get("kind") == 2 and any(d is not None and "oid" in d for _, d in c.get("fields", []))
+                               for c in case.get("classes", []))
+        if not shared_by_python:
+            c4 = wire.Ctx()
+            c4.cls_by_id, c4.cls_desc, c4.oid = ctx.cls_by_id, ctx.cls_desc, ctx.oid
+            v4 = build.build(c4, case["v"], case["env"])
+            snap4 = snap(v4)
+            for i, xd in enumerate(case["xs"][:3]):
+                r1 = solo(v4, wire.mk_value(c4, xd))[0]
+                if r1[0] != "ok" or not getattr(r1[1], "is_valid", False):
+                    continue
+                want = wire.normalise(props.strip_ids(canon_res(c4, r1)))
+                scribble(r1[1].val, 0)
+                if snap(v4) != snap4:
+                    fails.append(f"history call {i}: editing the returned payload in place changed the validator's configuration")
+                    break
+                r2 = solo(v4, wire.mk_value(c4, xd))[0]
+                if wire.normalise(props.strip_ids(canon_res(c4, r2))) != want:
+                    fails.append(f"history call {i}: after the caller edited the returned payload in place, an equal input "
+                                 f"gets a different result")
                     break
     except Exception:  # noqa
         pass
